@@ -1,6 +1,74 @@
 import CkbVerif.Driver.Util
+import CkbVerif.Driver.C02
+import CkbVerif.Model.Freeze
+
+/-! Line-protocol driver for C10 (protocol: harness/n10/src/c10.rs): the C02 ops build the chain
+(answered exactly like the C02 driver), `freeze` / `restart` / `query` run `Model/Freeze.lean`. -/
 namespace CkbVerif.Driver.C10
-def main (_args : List String) : IO UInt32 := do
-  IO.eprintln "C10: model driver not implemented"
-  return 2
+open CkbVerif.Driver CkbVerif.Store CkbVerif.Freeze
+
+structure St where
+  c : C02.St := {}
+  noHdr : List Nat := []
+  noBody : List Nat := []
+  frozen : List Block := []
+
+def toFS (s : St) : FS :=
+  { v := s.c.v,
+    hdr := fun id => !s.noHdr.contains id,
+    body := fun id => !s.noBody.contains id,
+    stored := (s.c.blocks.map (·.1)).filter (fun id => !s.noBody.contains id),
+    frozen := s.frozen }
+
+def fromFS (s : St) (f : FS) : St :=
+  let ids := s.c.blocks.map (·.1)
+  { s with noHdr := ids.filter (fun id => !f.hdr id), noBody := ids.filter (fun id => !f.body id), frozen := f.frozen }
+
+def flag (b : Bool) : String := if b then "1" else "0"
+
+def query (s : St) : String :=
+  let f := toFS s
+  let blkIds := C02.sortNat (s.c.blocks.map (·.1))
+  let txIds := C02.sortNat (s.c.txs.map (·.1))
+  let tip := match f.v.m.tip with | some t => toString t | none => "-"
+  let bs := blkIds.filterMap fun id =>
+    match C02.lookup s.c.blocks id with
+    | none => none
+    | some blk =>
+      let h := f.hdr id
+      let b := match getBlock f id with
+        | .some fb => if fb.id = id then "=" else "!"
+        | .none => "-"
+        | .panic => "P"
+      let part := (getPart f id).isSome
+      let t := if part then blk.txs.length else 0
+      let k := if (getPacked f id).isSome then "=" else "-"
+      let m := if (f.v.m.rindex id).isSome then "m" else "s"
+      some s!"b{id}:{flag h}{b}{t}{flag part}{flag part}{flag part}{flag part}{k}{m}"
+  let ts := txIds.filterMap fun t =>
+    match f.v.m.txInfo t with
+    | none => none
+    | some _ => some s!"t{t}:{if (getTx f t).isSome then "=" else "-"}"
+  " ".intercalate ([s!"frozen={frozenNumber f}", s!"tip={tip}"] ++ bs ++ ts)
+
+def step (s : St) (ts : List String) : St × String :=
+  match ts with
+  | ["freeze"] =>
+    let f := toFS s
+    let (f', r) := freeze f
+    let s' := fromFS s f'
+    match r with
+    | .ok => (s', s!"ok {frozenNumber f'}")
+    | .idle => (s', s!"ok {frozenNumber f'}")
+    | .err => (s', s!"err {frozenNumber f'}")
+    | .panic => (s', "panic")
+  | ["restart"] => (s, s!"ok {s.frozen.length + 1}")
+  | ["query"] => (s, query s)
+  | _ =>
+    let (c', out) := C02.step s.c ts
+    ({ s with c := c' }, out)
+
+def main (_args : List String) : IO UInt32 :=
+  runLines ({} : St) step
+
 end CkbVerif.Driver.C10
